@@ -36,8 +36,8 @@ VARIABLES tid, l, verdict,
           exp,     \* c -> consecutive loop tops with the keep-alive time passed
           late,    \* c -> the handler returned after the worker was told to stop
           busy,    \* jobs in the executor (submitted, completion not yet done)
-          acc, cls, stopping
-vars == <<tid, l, verdict, st, pend, left, dl, dll, wait, exp, late, busy, acc, cls, stopping>>
+          acc, cls, stopping, termed
+vars == <<tid, l, verdict, st, pend, left, dl, dll, wait, exp, late, busy, acc, cls, stopping, termed>>
 
 T == Traces[tid]
 C == T.cfg
@@ -54,7 +54,7 @@ Init ==
   /\ wait = [c \in 1..Traces[tid].cfg.nconn |-> 0]
   /\ exp = [c \in 1..Traces[tid].cfg.nconn |-> 0]
   /\ late = [c \in 1..Traces[tid].cfg.nconn |-> FALSE]
-  /\ busy = 0 /\ acc = 0 /\ cls = 0 /\ stopping = FALSE
+  /\ busy = 0 /\ acc = 0 /\ cls = 0 /\ stopping = FALSE /\ termed = FALSE
 
 Same(vs) == UNCHANGED vs
 
@@ -64,6 +64,9 @@ CloseVerdict(c, now) ==
   IF st[c] = "closed" THEN "NoDoubleClose"
   ELSE IF st[c] = "handled" THEN "NoCloseWhileHandled"
   ELSE IF st[c] = "idle" /\ ~left[c] /\ ~stopping /\ now < dl[c] THEN "KeepAliveNotBefore"
+  \* closed unserved although the request had been pending, with a thread free, since before the
+  \* top of this iteration (the poll of this iteration had to see it)
+  ELSE IF st[c] \in {"open", "idle"} /\ pend[c] /\ wait[c] >= 1 /\ ~stopping THEN "ServedIfThreadFree"
   ELSE "ok"
 
 \* top of a main-loop iteration
@@ -97,71 +100,72 @@ Step ==
   /\ LET e == T.ev[l]  c == e.c IN
      CASE e.e = "connect" ->
             /\ st' = [st EXCEPT ![c] = "backlog"] /\ verdict' = "ok"
-            /\ Same(<<pend, left, dl, dll, wait, exp, late, busy, acc, cls, stopping>>)
+            /\ Same(<<pend, left, dl, dll, wait, exp, late, busy, acc, cls, stopping, termed>>)
        [] e.e = "send" ->
             /\ pend' = [pend EXCEPT ![c] = TRUE] /\ verdict' = "ok"
-            /\ Same(<<st, left, dl, dll, wait, exp, late, busy, acc, cls, stopping>>)
+            /\ Same(<<st, left, dl, dll, wait, exp, late, busy, acc, cls, stopping, termed>>)
        [] e.e = "leave" ->
             /\ left' = [left EXCEPT ![c] = TRUE] /\ verdict' = "ok"
-            /\ Same(<<st, pend, dl, dll, wait, exp, late, busy, acc, cls, stopping>>)
+            /\ Same(<<st, pend, dl, dll, wait, exp, late, busy, acc, cls, stopping, termed>>)
        [] e.e \in {"term", "pdead"} ->
-            /\ stopping' = TRUE /\ verdict' = "ok"
+            /\ stopping' = TRUE /\ verdict' = "ok" /\ termed' = (termed \/ e.e = "term")
             /\ Same(<<st, pend, left, dl, dll, wait, exp, late, busy, acc, cls>>)
        [] e.e = "accept" ->
             /\ st' = [st EXCEPT ![c] = "open"] /\ acc' = acc + 1
             /\ verdict' = (IF acc + 1 - cls > C.wc THEN "NeverExceedMax" ELSE "ok")
-            /\ Same(<<pend, left, dl, dll, wait, exp, late, busy, cls, stopping>>)
+            /\ Same(<<pend, left, dl, dll, wait, exp, late, busy, cls, stopping, termed>>)
        [] e.e = "submit" ->
             /\ st' = [st EXCEPT ![c] = IF st[c] \in {"open", "idle"} THEN "handled" ELSE st[c]]
             /\ pend' = [pend EXCEPT ![c] = FALSE]
             /\ wait' = [wait EXCEPT ![c] = 0] /\ exp' = [exp EXCEPT ![c] = 0]
             /\ busy' = busy + 1 /\ verdict' = "ok"
-            /\ Same(<<left, dl, dll, late, acc, cls, stopping>>)
+            /\ Same(<<left, dl, dll, late, acc, cls, stopping, termed>>)
        [] e.e = "jobend" ->
             /\ st' = [st EXCEPT ![c] = IF st[c] # "handled" THEN st[c]
                                         ELSE IF e.x = "keep" THEN "keeping" ELSE "closing"]
             /\ dl' = [dl EXCEPT ![c] = e.now + C.ka] /\ dll' = [dll EXCEPT ![c] = e.now + C.ka]
-            /\ late' = [late EXCEPT ![c] = stopping]
+            /\ late' = [late EXCEPT ![c] = termed]
             /\ verdict' = "ok"
-            /\ Same(<<pend, left, wait, exp, busy, acc, cls, stopping>>)
+            /\ Same(<<pend, left, wait, exp, busy, acc, cls, stopping, termed>>)
        [] e.e = "reg" ->
             /\ dll' = IF c \in Conns THEN [dll EXCEPT ![c] = IF st[c] \in {"idle", "keeping"} THEN e.now + C.ka ELSE dll[c]]
                       ELSE dll
             /\ verdict' = "ok"
-            /\ Same(<<st, pend, left, dl, wait, exp, late, busy, acc, cls, stopping>>)
+            /\ Same(<<st, pend, left, dl, wait, exp, late, busy, acc, cls, stopping, termed>>)
        [] e.e = "finish" ->
             /\ busy' = busy - 1 /\ verdict' = "ok"
             /\ st' = [st EXCEPT ![c] = IF st[c] = "keeping" THEN "idle" ELSE st[c]]
             /\ dll' = [dll EXCEPT ![c] = IF st[c] = "keeping" THEN e.now + C.ka ELSE dll[c]]
-            /\ Same(<<pend, left, dl, wait, exp, late, acc, cls, stopping>>)
+            /\ late' = [late EXCEPT ![c] = late[c] \/ (st[c] = "keeping" /\ termed)]
+            /\ Same(<<pend, left, dl, wait, exp, acc, cls, stopping, termed>>)
        [] e.e = "cancel" ->
             /\ busy' = busy - 1 /\ verdict' = "ok"
             /\ st' = [st EXCEPT ![c] = IF st[c] = "handled" THEN "closing" ELSE st[c]]
-            /\ Same(<<pend, left, dl, dll, wait, exp, late, acc, cls, stopping>>)
+            /\ Same(<<pend, left, dl, dll, wait, exp, late, acc, cls, stopping, termed>>)
        [] e.e = "close" ->
             /\ verdict' = CloseVerdict(c, e.now)
             /\ st' = [st EXCEPT ![c] = "closed"] /\ cls' = cls + 1
-            /\ Same(<<pend, left, dl, dll, wait, exp, late, busy, acc, stopping>>)
+            /\ Same(<<pend, left, dl, dll, wait, exp, late, busy, acc, stopping, termed>>)
        [] e.e = "reclose" ->
             /\ verdict' = "NoDoubleClose"
-            /\ Same(<<st, pend, left, dl, dll, wait, exp, late, busy, acc, cls, stopping>>)
+            /\ Same(<<st, pend, left, dl, dll, wait, exp, late, busy, acc, cls, stopping, termed>>)
        [] e.e = "loop" ->
             /\ verdict' = LoopVerdict(e)
             /\ wait' = [c2 \in Conns |-> WaitNext(c2)]
             /\ exp' = [c2 \in Conns |-> ExpNext(c2, e.now)]
-            /\ Same(<<st, pend, left, dl, dll, late, busy, acc, cls, stopping>>)
+            /\ Same(<<st, pend, left, dl, dll, late, busy, acc, cls, stopping, termed>>)
        [] e.e = "quiescent" ->
             /\ verdict' = QuiescentVerdict(e)
-            /\ Same(<<st, pend, left, dl, dll, wait, exp, late, busy, acc, cls, stopping>>)
+            /\ Same(<<st, pend, left, dl, dll, wait, exp, late, busy, acc, cls, stopping, termed>>)
        [] e.e = "exit" ->
             /\ verdict' = ExitVerdict(e)
-            /\ Same(<<st, pend, left, dl, dll, wait, exp, late, busy, acc, cls, stopping>>)
+            /\ Same(<<st, pend, left, dl, dll, wait, exp, late, busy, acc, cls, stopping, termed>>)
        [] e.e = "crash" ->
             /\ verdict' = "LoopCrashed"
-            /\ Same(<<st, pend, left, dl, dll, wait, exp, late, busy, acc, cls, stopping>>)
+            /\ Same(<<st, pend, left, dl, dll, wait, exp, late, busy, acc, cls, stopping, termed>>)
        [] OTHER ->
             /\ verdict' = "ok"
-            /\ Same(<<st, pend, left, dl, dll, wait, exp, late, busy, acc, cls, stopping>>)
+            /\ Same(<<st, pend, left, dl, dll, wait, exp, late, busy, acc, cls, stopping, termed>>)
 
 Spec == Init /\ [][Step]_vars
 
